@@ -295,6 +295,44 @@ pub fn run(cfg: &Cfg) -> (Log, Meta) {
   if nominal_add((1990, 1, 31, 0, 0, 0), (0, 1, 0, 0, 0)).0 != (1990, 3, 3, 0, 0, 0) || nominal_add((1999, 12, 31, 23, 59, 0), (0, 0, 0, 0, 2)).0 != (2000, 1, 1, 0, 1, 0) {
     log.harness_error("nominal calendar addition self-test failed");
   }
+  // related births one after the other on a single thread, nothing else running: a limit must not depend on the
+  // birth that was laid out just before (same Gregorian year on both sides of the year's first and last Jie, same
+  // month in adjacent years, both sides of a Jie within one civil month, both genders)
+  tyme4rs::tyme::eightchar::verif::set_child_limit_provider(0);
+  {
+    let c = cal();
+    let n_rel = cfg.tier.pick(300usize, 6_000usize);
+    let mut rng = Rng::new(mix(cfg.seed, 0x2C16));
+    for k in 0..n_rel {
+      let y = if k % 4 == 0 { rng.range(1900, 2100) } else { rng.range(3, 9986) };
+      if (1570..=1583).contains(&y) {
+        continue;
+      }
+      let sod = rng.range(0, 86399);
+      let jan = c.dn(y, 1, rng.range(1, 5)) * 86400 + sod;
+      let dec = c.dn(y, 12, rng.range(8, 31)) * 86400 + rng.range(0, 86399);
+      let m = rng.range(2, 11);
+      let early = c.dn(y, m, rng.range(1, 3)) * 86400 + sod;
+      let late = c.dn(y, m, rng.range(12, 28)) * 86400 + sod;
+      let next_year = c.dn(y + 1, m, rng.range(12, 28)) * 86400 + sod;
+      let mut seq: Vec<i64> = vec![jan, dec, jan, early, late, early, next_year, late, c.dn(y + 1, 1, rng.range(1, 5)) * 86400 + sod, dec];
+      if k % 2 == 1 {
+        seq.reverse();
+      }
+      for (j, a) in seq.iter().enumerate() {
+        if cal::reform_era_day(a.div_euclid(86400)) {
+          continue;
+        }
+        let man = (k + j) % 3 != 0;
+        check_birth(*a, man, Strat::Default, true, &mut log);
+        if j % 4 == 1 {
+          check_birth(*a, !man, Strat::Default, true, &mut log);
+        }
+        log.count("related.births_in_sequence", 1);
+      }
+      log.count("related.sequences", 1);
+    }
+  }
   let n_default = cfg.tier.pick(20_000usize, 1_000_000usize);
   let n_other = cfg.tier.pick(4_000usize, 100_000usize);
   // default strategy through the public entry point
@@ -328,9 +366,10 @@ pub fn run(cfg: &Cfg) -> (Log, Meta) {
   log.floor("birth.within_10s_of_the_governing_jie", cfg.tier.pick(50, 2_000));
   log.floor("end.month_or_day_carried", cfg.tier.pick(5_000, 200_000));
   log.floor("strategy.direct_or_switched_calls", cfg.tier.pick(3_000, 80_000));
+  log.floor("related.births_in_sequence", cfg.tier.pick(2_000, 40_000));
   let meta = Meta {
     rule: format!(
-      "{} seeded births x both genders through ChildLimit::from_solar_time with the default strategy (1/3 in 1570-1583, 1/12 within 3 s of a Jie instant, 1/12 on month/year ends late in the day, 1/12 on days 28-31): direction from year-stem polarity and gender, eight characters, governing Jie from the term list, counts by the 3 d = 1 y ... 1 s = 2 min rule, end = birth + counts by nominal calendar addition, 0 <= end - birth <= 11 y + 2 d, decade fortune 0 and k (pillar, start/end age, years, index, start fortune), fortune 0 and 3k (pillar, age, year), ages; {} births per alternative strategy (China95, LunarSect1, LunarSect2 and Default) called directly and through the guarded global provider switch: counts by the strategy's rule (Sect1: reported counts), same end-instant and fortune oracles. Ends whose nominal day carry meets October 1582 at a day number > 4 other than 15..21 form the signature class C16/end-1582-10 (listed finding). distinct_nontrivial = distinct (birth, gender, strategy, route).",
+      "single-threaded sequences of 10 related births (first days of January / December after Daxue / first days of the next January of one civil year in both orders, both sides of the Jie inside one civil month, the same month one year later, both genders) before anything else runs, each judged like every other birth; {} seeded births x both genders through ChildLimit::from_solar_time with the default strategy (1/3 in 1570-1583, 1/12 within 3 s of a Jie instant, 1/12 on month/year ends late in the day, 1/12 on days 28-31): direction from year-stem polarity and gender, eight characters, governing Jie from the term list, counts by the 3 d = 1 y ... 1 s = 2 min rule, end = birth + counts by nominal calendar addition, 0 <= end - birth <= 11 y + 2 d, decade fortune 0 and k (pillar, start/end age, years, index, start fortune), fortune 0 and 3k (pillar, age, year), ages; {} births per alternative strategy (China95, LunarSect1, LunarSect2 and Default) called directly and through the guarded global provider switch: counts by the strategy's rule (Sect1: reported counts), same end-instant and fortune oracles. Ends whose nominal day carry meets October 1582 at a day number > 4 other than 15..21 form the signature class C16/end-1582-10 (listed finding). distinct_nontrivial = distinct (birth, gender, strategy, route).",
       n_default, n_other
     ),
     assumptions: vec![
